@@ -36,25 +36,23 @@ const (
 // This lets us process the zip in one pass, which normally isn't possible with
 // the directory at the end.
 func ZipToTar(r *os.File, w io.Writer) error {
-	size, err := r.Seek(0, io.SeekEnd)
+	// only positioned reads: the caller may start another ZipToTar on the same
+	// file (failover) or patch it while an abandoned producer is still running,
+	// so the shared file offset must not be used
+	st, err := r.Stat()
 	if err != nil {
 		return err
 	}
+	size := st.Size()
 	dirLoc, err := FindDirectory(r, size)
 	if err != nil {
 		return err
 	}
 	tw := tar.NewWriter(w)
-	if _, err := r.Seek(dirLoc, 0); err != nil {
+	if err := tarAddStream(tw, io.NewSectionReader(r, dirLoc, size-dirLoc), TarMemberCD, size-dirLoc); err != nil {
 		return err
 	}
-	if err := tarAddStream(tw, r, TarMemberCD, size-dirLoc); err != nil {
-		return err
-	}
-	if _, err := r.Seek(0, 0); err != nil {
-		return err
-	}
-	if err := tarAddStream(tw, r, TarMemberZip, size); err != nil {
+	if err := tarAddStream(tw, io.NewSectionReader(r, 0, size), TarMemberZip, size); err != nil {
 		return err
 	}
 	return tw.Close()
